@@ -238,6 +238,75 @@ func c12cBody(sc c12cScn, res *string) func(x *sched.Exec) {
 	}
 }
 
+// c12cCreateBody: streams that a view makes identical are added together -- also when the
+// instruments are created at the same moment. Two threads: one creates counter "a", the other
+// counter "b" (mode "rename": a view renames both to "m") or the same counter "a" again (mode
+// "same"); each records its own power of three with the same attribute set. Afterwards a delta
+// and a cumulative reader must each report the stream exactly once, holding the total.
+func c12cCreateBody(mode string, res *string) func(x *sched.Exec) {
+	return func(x *sched.Exec) {
+		ctx := context.Background()
+		delta := NewManualReader(WithTemporalitySelector(func(InstrumentKind) metricdata.Temporality { return metricdata.DeltaTemporality }))
+		cum := NewManualReader()
+		opts := []Option{WithReader(delta), WithReader(cum)}
+		second, stream := "a", "a"
+		if mode == "rename" {
+			second, stream = "b", "m"
+			opts = append(opts, WithView(NewView(Instrument{Name: "a"}, Stream{Name: "m"}), NewView(Instrument{Name: "b"}, Stream{Name: "m"})))
+		}
+		mp := NewMeterProvider(opts...)
+		var wg vsync.WaitGroup
+		wg.Add(2)
+		for i, name := range []string{"a", second} {
+			v := int64(1)
+			if i == 1 {
+				v = 3
+			}
+			sched.Go(func() {
+				defer wg.Done()
+				c, err := mp.Meter("m").Int64Counter(name)
+				if err != nil || c == nil {
+					return
+				}
+				c.Add(ctx, v, api.WithAttributes(attribute.String("k", "x")))
+			})
+		}
+		wg.Wait()
+		var out []string
+		for _, rd := range []struct {
+			name string
+			r    *ManualReader
+		}{{"delta", delta}, {"cumulative", cum}} {
+			var rm metricdata.ResourceMetrics
+			if err := rd.r.Collect(ctx, &rm); err != nil {
+				x.Fail("C12|conc|creation|collect-error", "Collect: %v", err)
+			}
+			var streams, points int
+			var total int64
+			for _, sm := range rm.ScopeMetrics {
+				for _, m := range sm.Metrics {
+					if m.Name != stream {
+						x.Fail("C12|conc|creation|unexpected-stream", "the %s reader reports a stream named %q", rd.name, m.Name)
+						continue
+					}
+					streams++
+					if d, ok := m.Data.(metricdata.Sum[int64]); ok {
+						for _, dp := range d.DataPoints {
+							points++
+							total += dp.Value
+						}
+					}
+				}
+			}
+			if streams != 1 || points != 1 || total != 4 {
+				x.Fail("C12|conc|creation|identical-streams-not-added-together|"+mode, "two threads created counters that resolve to the one stream %q and recorded 1 and 3 for the same attribute set: the %s reader reports %d stream(s) with %d point(s) in all, total %d (want 1 stream, 1 point, 4)", stream, rd.name, streams, points, total)
+			}
+			out = append(out, fmt.Sprint(streams, points, total))
+		}
+		*res = fmt.Sprint(out)
+	}
+}
+
 type c12cJob struct {
 	sc c12cScn
 	p  int
@@ -278,9 +347,29 @@ func TestVerifC12Conc(t *testing.T) {
 	for _, j := range all {
 		names = append(names, j.name())
 	}
+	pc := 3
+	if thorough {
+		pc = 5
+	}
+	createJobs := map[string]string{
+		fmt.Sprintf("K12-two-counters-renamed-to-one-stream-created-concurrently/P%d", pc): "rename",
+		fmt.Sprintf("K13-same-counter-created-concurrently/P%d", pc):                       "same",
+	}
+	for n := range createJobs {
+		names = append(names, n)
+	}
+	sort.Strings(names[len(all):])
 	enum.Jobs(names, func(job string) {
 		r := enum.Start("C12", "conc")
 		defer r.Finish()
+		if mode, ok := createJobs[job]; ok {
+			r.Bound("conc/creation_max_preemptions", pc)
+			var res string
+			st := sched.Explore(r, sched.Config{Name: job, MaxP: pc, MaxE: 0, MaxSteps: 6000, Body: c12cCreateBody(mode, &res),
+				Outcome: func(*sched.Exec) string { return res }})
+			t.Logf("%s: execs=%d states=%d outcomes=%d complete=%v keys=%v", job, st.Execs, st.States, len(st.Outcomes), st.Complete, r.Keys())
+			return
+		}
 		for _, j := range all {
 			if j.name() != job {
 				continue
